@@ -36,4 +36,18 @@ def canCloseEmphasis (star : Bool) (prev next : Neighbour) : Bool :=
   if star then rightFlanking prev next
   else rightFlanking prev next && (!leftFlanking prev next || (leftFlanking prev next && next.punct))
 
+/-- §2.1 "A Unicode whitespace character is any code point in the Unicode Zs general category, or a tab (U+0009), line
+    feed (U+000A), form feed (U+000C), or carriage return (U+000D)." (`isZs` = membership in Zs, which contains U+0020.) -/
+def isUnicodeWhitespaceSpec (isZs : Nat → Bool) (c : Nat) : Bool :=
+  isZs c || c == 0x09 || c == 0x0A || c == 0x0C || c == 0x0D
+
+/-- §2.1: the 32 ASCII punctuation characters: U+0021-2F, U+003A-0040, U+005B-0060, U+007B-007E. -/
+def asciiPunctuationChars : List UInt8 := [0x21, 0x22, 0x23, 0x24, 0x25, 0x26, 0x27, 0x28, 0x29, 0x2A, 0x2B, 0x2C, 0x2D, 0x2E, 0x2F, 0x3A, 0x3B, 0x3C, 0x3D, 0x3E, 0x3F, 0x40, 0x5B, 0x5C, 0x5D, 0x5E, 0x5F, 0x60, 0x7B, 0x7C, 0x7D, 0x7E]
+
+/-- §2.1 "A Unicode punctuation character is an ASCII punctuation character or anything in the general Unicode
+    categories Pc, Pd, Pe, Pf, Pi, Po, or Ps." (`isP` = membership in one of those categories; the ASCII punctuation
+    characters are the 32 listed in §2.1.) -/
+def isUnicodePunctuationSpec (isP : Nat → Bool) (c : Nat) : Bool :=
+  isP c || (c < 0x80 && asciiPunctuationChars.contains (UInt8.ofNat c))
+
 end CM.Spec
